@@ -1,8 +1,8 @@
 --------------------------- MODULE DiffTreeTrace ---------------------------
 (* C44, batch trace validation (code -> spec).  The harness records, for every pair of trees,
-   what object.DiffTreeWithOptions(DefaultDiffTreeOptions) (rename detection on) returned:
-      [a |-> tree, b |-> tree, out |-> <<[fp, tp, f, t], ...>>]
-   TLC evaluates DiffTree!Admissible on every record and writes the indexes of the records
+   what object.DiffTreeWithOptions (rename detection on, options o) returned:
+      [a |-> tree, b |-> tree, o |-> [limit, exact, score], out |-> <<[fp, tp, f, t], ...>>]
+   (o = the DiffTreeOptions the row asked for).  TLC evaluates DiffTree!AdmissibleUnder on every record and writes the indexes of the records
    that are not admissible.  The predicate lives in DiffTree.tla; nothing is decided in Go. *)
 EXTENDS DiffTree
 
@@ -13,13 +13,13 @@ Why(r) ==
   {"invented-" \o c.k : c \in Expand(r.out) \ Diff(r.a, r.b)} \cup
   {"lost-" \o c.k : c \in Diff(r.a, r.b) \ Expand(r.out)} \cup
   (IF \E i, j \in 1..Len(r.out) : i # j /\ PathsUsed(r.out)[i] \cap PathsUsed(r.out)[j] # {} THEN {"path-used-twice"} ELSE {})
-BadIdx == {i \in 1..Len(Recs) : ~Admissible(Recs[i].a, Recs[i].b, Recs[i].out)}
+BadIdx == {i \in 1..Len(Recs) : ~AdmissibleUnder(Recs[i].o, Recs[i].a, Recs[i].b, Recs[i].out)}
 Renames == Cardinality({i \in 1..Len(Recs) : \E k \in 1..Len(Recs[i].out) :
                           LET o == Recs[i].out[k] IN o.fp # "" /\ o.tp # "" /\ o.fp # o.tp})
 ASSUME TraceFile # "" => JsonSerialize("difftree_rename_verdict.json",
           [n |-> Len(Recs), renames |-> Renames,
            bad |-> LET bs == SetToSortSeq(BadIdx, LAMBDA x, y : x < y)
-                   IN [i \in 1..Len(bs) |-> [i |-> bs[i], why |-> SetSeq(Why(Recs[bs[i]]))]]])
+                   IN [i \in 1..Len(bs) |-> [i |-> bs[i], why |-> SetSeq(Why(Recs[bs[i]])), oc |-> OptClass(Recs[bs[i]].o)]]])
 
 TInit == ta = 0 /\ tb = 0 /\ d = 0
 =============================================================================
